@@ -45,7 +45,7 @@ static int run_once(const cfg_t *c, const uint8_t *prefix, int plen)
 }
 
 /* ---------------- oracle ---------------- */
-static int64_t REF_A[1 + 16], REF_OPS[64];
+static int64_t REF_A[1 + 16], REF_OPS[128];
 static char ctxname[128];
 static uint64_t seen_outcomes[64]; static int nseen;
 static void sched_str(char *out, size_t cap, const sch_trace *t)
@@ -154,7 +154,7 @@ static void explore_parallel(const cfg_t *c)
 /* the sequential reference: one process, sodium_init then every operation once */
 static void compute_reference(void)
 {
-    int pfd[2], i; pid_t pid; int64_t buf[1 + 64];
+    int pfd[2], i; pid_t pid; int64_t buf[1 + 128];
     if (pipe(pfd)) exit(2);
     fflush(stdout); pid = fork();
     if (pid == 0) { buf[0] = sodium_init(); for (i = 0; i < NOPS; i++) buf[1 + i] = OPS[i].fn(); if (write(pfd[1], buf, sizeof buf) < 0) _exit(3); _exit(0); }
@@ -163,6 +163,18 @@ static void compute_reference(void)
     for (i = 0; i < NOPS; i++) REF_OPS[i] = buf[1 + i];
     for (i = 0; i < NOBS_A; i++) REF_A[1 + i] = REF_OPS[OBS_A[i]];
     /* sodium_init(again) returns 1 once initialised */
+}
+
+#define MAXPAIRS 8192
+static int PAIRS[MAXPAIRS][2], npairs;
+static void do_pair(long k)
+{
+    cfg_t c; c.nthreads = 2; c.body = body_pair; c.pre_init = 1;
+    private_trace();
+    pairA = PAIRS[k][0]; pairB = PAIRS[k][1];
+    snprintf(ctxname, sizeof ctxname, "pair/%s|%s/bound=%d", OPS[pairA].name, OPS[pairB].name, BOUND);
+    sample_budget = (k == 5) ? 1 : 0;
+    explore(&c, NULL, 0, 0, 0, 0);
 }
 
 int main(int argc, char **argv)
@@ -177,16 +189,19 @@ int main(int argc, char **argv)
         snprintf(ctxname, sizeof ctxname, "init/threads=%d/bound=%d", nthr, BOUND);
         explore_parallel(&c);
         vf_stat("preemption_bound", (unsigned long long) BOUND);
-    } else {          /* pairs */
-        cfg_t c; c.nthreads = 2; c.body = body_pair; c.pre_init = 1;
-        BOUND = argc > 2 ? atoi(argv[2]) : (thorough ? 2 : 1);
+    } else {          /* pairs: one worker per pair, sequential DFS inside */
+        int n = 0; const char *sel = argc > 3 ? argv[3] : "all";
+        BOUND = argc > 2 ? atoi(argv[2]) : 1;
         for (a = 0; a < NOPS; a++) for (b = 0; b < NOPS; b++) {
-            pairA = a; pairB = b; snprintf(ctxname, sizeof ctxname, "pair/%s|%s/bound=%d", OPS[a].name, OPS[b].name, BOUND);
-            sample_budget = (a == 2 && b == 12) ? 1 : 0;
-            explore_parallel(&c);
-            if (vf_nfail >= VF_MAXFAIL) return 0;
+            int keep = !strcmp(sel, "all") || a == b || b == (a + 1) % NOPS || b == (a + 7) % NOPS || a == 2 || b == 2 || a == 12 || b == 12 || a == 24 || b == 24 || a == 23 || b == 23;
+            /* "core": every operation against itself, against two neighbours, and against guarded allocation (2), the default RNG (12),
+             * sodium_init-again (24) and set_misuse_handler (23) in both orders */
+            if (keep && n < MAXPAIRS) { PAIRS[n][0] = a; PAIRS[n][1] = b; n++; }
         }
-        vf_stat("preemption_bound", (unsigned long long) BOUND);
+        npairs = n;
+        fin();
+        vf_parallel(16, 0, npairs, do_pair, fin);
+        vf_stat("preemption_bound", (unsigned long long) BOUND); vf_stat("pairs", (unsigned long long) npairs);
     }
     return 0;
 }
